@@ -50,14 +50,25 @@ pub fn xml_string(rng: &mut Rng, max: usize) -> String {
 /// Text biased to runs of `]` and `>` (C14).
 pub fn bracket_string(rng: &mut Rng, max: usize) -> String {
     let n = rng.below(max + 1);
-    (0..n)
+    let mut s: String = (0..n)
         .map(|_| match rng.below(8) {
             0..=3 => ']',
             4 | 5 => '>',
             6 => *rng.pick(&['a', '\r', '\n', '&']),
             _ => xml_char(rng),
         })
-        .collect()
+        .collect();
+    // character data that LOOKS like markup the serialisers write themselves (seed C14k: a
+    // post-processing of the output that matched the literal text `<![CDATA[`)
+    if max > 0 && rng.chance(1, 6) {
+        let piece = *rng.pick(&["<![CDATA[", "<![CDATA[]]>", "]]><![CDATA[", "&#xD;", "<!--", "-->", "<?", "?>", "&amp;", "</"]);
+        if rng.chance(1, 2) {
+            s.push_str(piece);
+        } else {
+            s.insert_str(0, piece);
+        }
+    }
+    s
 }
 
 /// A spelling of content with references: mostly valid pieces, some malformed ones.
